@@ -60,6 +60,15 @@ def strategy_(draw, tier):
         for p in parts:
             events.append([t * 0.5, p])
     events = events[:8]
+    share = False
+    if events and draw(st.integers(0, 3)) == 0:
+        # the same changes listed again at another time (e.g. a 'reset');
+        # with share=True both listings are one and the same dict object
+        src = draw(st.sampled_from(events))
+        free = [t for t in range(horizon + 1) if t not in times]
+        if free:
+            events.append([draw(st.sampled_from(free)) * 0.5, dict(src[1])])
+            share = draw(st.booleans())
     events = draw(st.permutations(events))
     nchunks = draw(st.integers(1, 3))
     chunks = [draw(st.integers(1, 6)) for _ in range(nchunks)]
@@ -67,7 +76,7 @@ def strategy_(draw, tier):
     # the timeline's own clock (global/time) may start later than 0
     t0 = draw(st.sampled_from([0, 0, 0, 0.5, 1.0, 3.0]))
     return {'mode': mode, 'dt': dt, 'chunks': chunks, 't0': t0,
-            'events': [list(e) for e in events]}
+            'share': share, 'events': [list(e) for e in events]}
 
 
 def strategy(tier):
@@ -78,9 +87,19 @@ def _key(k):
     return tuple(k.split('/'))
 
 
-def build_events(spec):
-    return [(t, {_key(k): v for k, v in ch.items()})
-            for t, ch in copy.deepcopy(spec['events'])]
+def build_events(spec, share=None):
+    """The timeline as handed to TimelineProcess.  With sharing, events whose
+    changes are equal hold one and the same dict object (a user listing a
+    named dict several times)."""
+    share = spec.get('share') if share is None else share
+    out, seen = [], {}
+    for t, ch in copy.deepcopy(spec['events']):
+        d = {_key(k): v for k, v in ch.items()}
+        if share:
+            sig = tuple(sorted(d.items()))
+            d = seen.setdefault(sig, d)
+        out.append((t, d))
+    return out
 
 
 def classify(spec, res):
@@ -100,6 +119,8 @@ def classify(spec, res):
     res.label('mode.' + spec['mode'])
     if spec.get('t0'):
         res.label('clock_starts_late')
+    if spec.get('share'):
+        res.label('events_share_a_dict')
     res.nontrivial = bool(res.labels & {
         'listing.unsorted', 'times.duplicate', 'tick.multiple_due'})
 
@@ -110,10 +131,12 @@ def run_direct(spec, res):
     nticks = sum(spec['chunks'])
     events = build_events(spec)
     t0 = spec.get('t0', 0)
-    expected = ref.fired_per_tick(build_events(spec), dt, nticks, t0)
+    expected = ref.fired_per_tick(build_events(spec, share=False), dt, nticks,
+                                  t0)
     tp = TimelineProcess({'timeline': events, 'time_step': dt})
     schema = tp.ports_schema()
-    want_ports = {k[0] for _, ch in build_events(spec) for k in ch} | {'global'}
+    want_ports = {k[0] for _, ch in build_events(spec, share=False)
+                  for k in ch} | {'global'}
     if set(schema) != want_ports:
         res.fail('ports', 'ports %r != %r' % (sorted(schema), sorted(want_ports)))
     for k in range(nticks):
@@ -191,8 +214,8 @@ def run_experiment(spec, res):
     data = engine.emitter.get_data()
     # the declarer runs with timestep 1: rows also exist at whole seconds;
     # compare at the timeline's ticks
-    expected = ref.trajectory(build_events(spec), dt, total, varkeys, inc=0,
-                              t0=spec.get('t0', 0))
+    expected = ref.trajectory(build_events(spec, share=False), dt, total,
+                              varkeys, inc=0, t0=spec.get('t0', 0))
     for k in range(total + 1):
         t = k * dt
         row = data.get(t)
@@ -236,8 +259,8 @@ def run_engine(spec, res):
         engine.update(c * dt)
         total += c
     data = engine.emitter.get_data()
-    expected = ref.trajectory(build_events(spec), dt, total, varkeys,
-                              t0=spec.get('t0', 0))
+    expected = ref.trajectory(build_events(spec, share=False), dt, total,
+                              varkeys, t0=spec.get('t0', 0))
     times = sorted(data)
     want_times = [k * dt for k in range(total + 1)]
     if times != want_times:
